@@ -64,6 +64,7 @@ type Scenario struct {
 }
 
 type SWorld struct {
+	setupMaxCas uint64
 	Cfg   Config
 	Extra []*rosmar.Bucket // further buckets to delete at teardown
 	Sc    *Scenario
@@ -743,6 +744,11 @@ func ScenarioNames(prefixes ...string) []string {
 // RunSchedMany explores many scenarios, one worker job per scenario (each job runs the complete
 // deviation-bounded DFS of its scenario).
 func RunSchedMany(rep *Report, pool *Pool, names []string, bound int, deadline time.Time) {
+	RunSchedManyKey(rep, pool, names, bound, deadline, "sched")
+}
+
+// RunSchedManyKey is RunSchedMany reporting under the given key of the evidence's extra section.
+func RunSchedManyKey(rep *Report, pool *Pool, names []string, bound int, deadline time.Time, key string) {
 	if len(names) == 0 {
 		return
 	}
@@ -802,7 +808,7 @@ func RunSchedMany(rep *Report, pool *Pool, names []string, bound int, deadline t
 			rep.AddSample(map[string]any{"scenario": name, "choices": res.Sample.Choices, "deviations": res.Sample.Trace, "ops": res.Sample.Ops})
 		}
 	})
-	prev, _ := rep.Extra["sched"].(map[string]any)
+	prev, _ := rep.Extra[key].(map[string]any)
 	if prev == nil {
 		prev = map[string]any{"scenarios": map[string]any{}}
 	}
@@ -813,7 +819,7 @@ func RunSchedMany(rep *Report, pool *Pool, names []string, bound int, deadline t
 	prev["deviation_bound"] = bound
 	prev["scenarios_run"] = len(sc)
 	prev["scenarios_with_one_outcome"] = oneOutcome
-	rep.Extra["sched"] = prev
+	rep.Extra[key] = prev
 }
 
 // ReplaySched re-executes a recorded schedule three times and reports whether the violation recurs.
